@@ -4,6 +4,7 @@
    responsible for, for EVERY dict tree.  Proofs in Proofs/XmlShape.v. *)
 Require Import BB.Base.Str BB.Base.Xml BB.Base.Dict BB.Model.Types BB.Model.Eid BB.Model.XmlGen.
 Require Import BB.Proofs.XmlShape.
+Require Import BB.Model.Post BB.Proofs.PostQuiet.
 
 (* block elements (blockList, item, ul, blockContainer) are never empty: the schema requires
    at least one child and the generator supplies an empty p if there is none *)
@@ -29,3 +30,9 @@ Print Assumptions C02_attachment_shape.
 Theorem C02_element_built_iff_legal : forall n a k e, mk_elem n a k = OkR e -> e = El n a k.
 Proof. exact mk_elem_inv. Qed.
 Print Assumptions C02_element_built_iff_legal.
+
+(* the clean-up pass removes childless crossHeading / longTitle / content / preface / preamble / conclusions and nothing else: a tree
+   without such an element comes out as it went in, for every tree and fuel *)
+Theorem C02_normalise_removes_empties_only : forall f x, no_empties x = true -> normalise f x = x.
+Proof. exact normalise_quiet. Qed.
+Print Assumptions C02_normalise_removes_empties_only.
